@@ -78,5 +78,7 @@ def boot(stubs=False):
         raise HarnessError("unexpected sktime version %s" % sktime.__version__)
     compat.post_import()
     warnings.filterwarnings("ignore")
+    # statsmodels forces some warnings to "always"; none of them is an oracle here
+    warnings.showwarning = lambda *a, **k: None
     _BOOTED = True
     return sktime
